@@ -31,4 +31,15 @@ McLatticeSum(gs, w, f, ref, Mu, Ms) ==
             y == IcdfPoint(gs[ch], 2 * ju - 1, 2 * Mu)
         IN RDiv(FAt(f, y, ref), TotalDensity(gs, w, y))])
 McExact(gs, w, f, ref, Mu, Ms) == REq(RDiv(McLatticeSum(gs, w, f, ref, Mu, Ms), R(Mu * Ms)), Integral(f, ref))
+
+\* ---- arbitrary (adapted) weights: the selector lattice of Ms points gives channel i a share that differs from w[i] / Total(w) by less than
+\* 1 / Ms, and a disabled channel none; hence the lattice value differs from sum_i alpha_i I_i = integral by less than sum_i I_i / Ms,
+\* where I_i = int f p_i / g is the contribution of channel i (used by Trace_C01!McAdapt with I_i <= sup p_i / g)
+SelCount(w, i, Ms) == Cardinality({js \in 1 .. Ms : i \in Owner(w, 2 * js - 1, 2 * Ms)})
+SelectorCountOK(w, Ms) ==
+    /\ \A i \in 1 .. Len(w) :
+          LET c == SelCount(w, i, Ms)
+          IN /\ (w[i] = 0) => (c = 0)
+             /\ c * Total(w) - Ms * w[i] < Total(w) /\ Ms * w[i] - c * Total(w) < Total(w)
+    /\ \A js \in 1 .. Ms : Cardinality(Owner(w, 2 * js - 1, 2 * Ms)) = 1            \* every lattice point has exactly one owner
 =============================================================================
